@@ -350,6 +350,9 @@ def rule_e(repo, res):
     from .. import quantmatrix
 
     quantmatrix.rule(repo, res, "C03.e")
+    from . import c14 as _c14
+
+    _c14.rule_h(repo, res, "C03.e")
     # the whole of C15: the sequence header make_sequence emits is the first of iter_sequence_headers
     from . import c15
 
